@@ -44,7 +44,9 @@ EXPLANATION = ("Theorems (Props/C09.lean): symbol tables (symbol_roundtrip, symb
                "entry paths (cells_roundtrip, nexus_matrix_roundtrip), interleaved in pages of any widths (nexus_interleaved_matrix_roundtrip) and "
                "with MATCHCHAR in any cells of any row after the first, whole matrix, both entry paths (nexus_matchchar_matrix_roundtrip; "
                "matchchar_row_roundtrip / nexus_matchchar_step / nexus_interleaved_step are its steps); continuous rows as decimal tokens "
-               "(continuous_tokens_roundtrip, continuous_row_roundtrip); NeXML otus references (nexml_links_resolve); custom alphabets through "
+               "(continuous_tokens_roundtrip, continuous_row_roundtrip), the WHOLE continuous NEXUS matrix on both entry paths incl. the final "
+               "NCHAR check (nexus_continuous_matrix_roundtrip, about nxReadC / nxRowsC, driver op nxreadc) and the relaxed PHYLIP line of a "
+               "continuous row (phylip_continuous_line_roundtrip_partial: one line, the whole continuous PHYLIP file is not modelled); NeXML otus references (nexml_links_resolve); custom alphabets through "
                "FORMAT and _build_state_alphabet (format_standard_alphabet_roundtrip); whole-file PHYLIP: relaxed for labels written "
                "without blanks under every underscore option pair (phylip_relaxed_roundtrip), relaxed with multispace delimiter for labels with "
                "single inner blanks (phylip_multispace_roundtrip), strict (phylip_strict_roundtrip); whole-file FASTA with wrapping "
@@ -56,7 +58,7 @@ EXPLANATION = ("Theorems (Props/C09.lean): symbol tables (symbol_roundtrip, symb
                "options give the label back exactly; bridge_* tie the regenerated kernels to the model; conversion chains as compositions "
                "of the above for symbol-only rows (convert_*). Whole-file theorems assume at least one row and rows of one positive length. "
                "Correspondence/oracle only: rows in another order than TAXLABELS, MATCHCHAR combined with interleaving, PHYLIP interleaved "
-               "paging, whole continuous matrices and float formatting, NeXML XML text, tree lists, construction routes "
+               "paging, whole continuous PHYLIP / NeXML matrices, interleaved continuous NEXUS and float formatting, NeXML XML text, tree lists, construction routes "
                "(from_dict/concatenate/export), lower-case custom symbols. format_standard_roundtrip_partial / phylip_*_line_roundtrip_partial / "
                "fasta_wrap_roundtrip_partial are fragments kept beside the full statements named above.")
 
@@ -1084,6 +1086,14 @@ def exec_matrix(ctx, dendropy, spec, pending):
                                             " ".join(hex6(l) for l in ([] if p["simple"] else p["taxa"])),
                                             " ".join("%s:%s" % (hex6(l), hex6(t)) for l, t in p["rows"]))
         pending.append((line, spec, "ok %s %s" % (m.data_type, rows_field(built)), "nxread"))
+    if via == "nexus" and dt == "continuous" and ascii_ok([l for l, _ in ref]) and "cparams" in spec["route"]:
+        # whole continuous matrix through the model's nxReadC: same taxa, same numbers (decimal value of every token)
+        p = spec["route"]["cparams"]
+        line = "nxreadc %d %d 0 %d %s %s" % (p["nchar"], p["ntax"] if p["simple"] else len(p["taxa"]), 0 if p["simple"] else len(p["taxa"]),
+                                            " ".join(hex6(l) for l in ([] if p["simple"] else p["taxa"])),
+                                            " ".join("%s:%s" % (hex6(l), hex6(t)) for l, t in p["rows"]))
+        pending.append((" ".join(line.split()), spec, "ok " + " ".join("%s:%s" % (hex6(l), ",".join(canon_dec(repr(float(x))) for x in c))
+                                                                        for l, c in built), "nxreadc"))
     if via in ("phylip", "fasta") and dt != "continuous" and ascii_ok([l for l, _ in ref]) and "text" in spec["route"]:
         rt = spec["route"]
         dtf0 = dt_field(dt, spec.get("std"))
@@ -1230,7 +1240,7 @@ def flush(ctx, pending):
             op = "phwrite"
         elif op == "fawrite":
             mo = canon_fasta(unhex6(mo) or "")
-        if op in ("nxread", "phread", "faread") and mo.startswith("err"):
+        if op in ("nxread", "nxreadc", "phread", "faread") and mo.startswith("err"):
             mo = "err"
         if op in ("nxread",) and impl.startswith("err"):
             impl = "err"
@@ -1304,9 +1314,9 @@ def gen_matrix_spec(rng, dt=None, via=None, fmt=None, dims=None):
         spec["route"] = {"via": "subset", "labels": labels, "rows": rows, "all_labels": allv}
     elif via == "nexus":
         if dt == "continuous":
-            text = compose_nexus({"simple": rng.random() < 0.5, "taxa": labels, "ntax": ntax, "nchar": nchar,
-                                  "fmt": "FORMAT DATATYPE=CONTINUOUS;", "rows": [[l, " ".join(repr(x) for x in row)] for l, row in zip(labels, rows)]})
-            spec["route"] = {"via": "nexus", "text": text, "ref": [[l, row] for l, row in zip(labels, rows)]}
+            cp = {"simple": rng.random() < 0.5, "taxa": labels, "ntax": ntax, "nchar": nchar,
+                  "fmt": "FORMAT DATATYPE=CONTINUOUS;", "rows": [[l, " ".join(repr(x) for x in row)] for l, row in zip(labels, rows)]}
+            spec["route"] = {"via": "nexus", "text": compose_nexus(cp), "ref": [[l, row] for l, row in zip(labels, rows)], "cparams": cp}
         else:
             rows2 = [list(row) for row in rows]
             if dt == "standard" and rng.random() < 0.35:
